@@ -2,6 +2,7 @@ CONSTANT MaxCalls = 3
 CONSTANT Ks = {0, 1, 2}
 CONSTANT SkelIds = {1, 2, 3, 4, 5, 6, 7, 8, 9}
 CONSTANT AllPatterns = TRUE
+CONSTANT FreeSets = {{}, {1}, {2, 3}}
 CONSTANT TrackHist = FALSE
 CONSTANT SampleMod = 1
 CONSTANT SamplePick = 0
